@@ -156,23 +156,30 @@ def heights (o : SqlOps) (t : List Row) (a : Nat) (logs : List Nat) : Option (Li
   let hs := (sortDedup logs).filterMap (fun l => (agg (sel t a l)).map (fun h => (l, h)))
   if hs.isEmpty then none else some hs
 
-def inRange (cNone cSome cUntil : Cmp) (after until : Option Nat) (s : Nat) : Bool :=
+def inRange (cNone cSome cUntil : Cmp) (after upto : Option Nat) (s : Nat) : Bool :=
   (match after with
    | none => cNone.eval s 0
-   | some a => cSome.eval s a) && cUntil.eval s (until.getD seqMax)
+   | some a => cSome.eval s a) && cUntil.eval s (upto.getD seqMax)
 
 /-- `(count, header bytes + payload bytes)`; SQL `SUM` over no rows is NULL, decoded as 0. -/
-def logSize (o : SqlOps) (t : List Row) (a l : Nat) (after until : Option Nat) : Nat × Nat :=
-  let rs := (sel t a l).filter (fun r => inRange o.sizeAfterNone o.sizeAfterSome o.sizeUntil after until r.seq)
+def logSize (o : SqlOps) (t : List Row) (a l : Nat) (after upto : Option Nat) : Nat × Nat :=
+  let rs := (sel t a l).filter (fun r => inRange o.sizeAfterNone o.sizeAfterSome o.sizeUntil after upto r.seq)
   (rs.length, (rs.map (fun r => r.hsize + r.psize)).sum)
 
 /-- Order of `ORDER BY seq_num`; rows with equal `seq` (SQL: unspecified) are listed by id. -/
 def rowLe (asc : Bool) (x y : Row) : Bool :=
   if x.seq = y.seq then decide (x.id ≤ y.id) else if asc then decide (x.seq < y.seq) else decide (y.seq < x.seq)
 
-def logEntries (o : SqlOps) (t : List Row) (a l : Nat) (after until : Option Nat) : Option (List Row) :=
-  let rs := (sel t a l).filter (fun r => inRange o.entAfterNone o.entAfterSome o.entUntil after until r.seq)
-  if rs.isEmpty then none else some (rs.mergeSort (rowLe o.entriesAsc))
+/-- insertion sort (structural recursion, so that concrete instances reduce by `decide`) -/
+def insertRow (asc : Bool) (x : Row) : List Row → List Row
+  | [] => [x]
+  | y :: ys => if rowLe asc x y then x :: y :: ys else y :: insertRow asc x ys
+
+def sortRows (asc : Bool) (rs : List Row) : List Row := rs.foldr (insertRow asc) []
+
+def logEntries (o : SqlOps) (t : List Row) (a l : Nat) (after upto : Option Nat) : Option (List Row) :=
+  let rs := (sel t a l).filter (fun r => inRange o.entAfterNone o.entAfterSome o.entUntil after upto r.seq)
+  if rs.isEmpty then none else some (sortRows o.entriesAsc rs)
 
 /-! ### topics_v1 -/
 
@@ -214,8 +221,8 @@ inductive Cmd where
   | prune (a l u : Nat)
   | latest (a l : Nat) | latestTx (a l : Nat)
   | heights (a : Nat) (logs : List Nat)
-  | size (a l : Nat) (after until : Option Nat)
-  | entries (a l : Nat) (after until : Option Nat)
+  | size (a l : Nat) (after upto : Option Nat)
+  | entries (a l : Nat) (after upto : Option Nat)
   | assoc (t a l : Nat) | unassoc (t a l : Nat) | resolve (t : Nat)
   | cset (n v : Nat) | cget (n : Nat) | cdel (n : Nat)
 deriving Repr
@@ -287,7 +294,9 @@ def exec (o : SqlOps) (heightsEmptyPanics : Bool) (s : St) : Cmd → St × Ans
   | .latest a l => onPool s (fun d => (d, latestAns o d.ops a l))
   | .latestTx a l => inTx s (fun d => (d, latestAns o d.ops a l))
   | .heights a logs =>
-    if heightsEmptyPanics && logs.isEmpty then (s, .panic)
+    -- the empty list never reaches the pool: pinned code panics while building the placeholder list,
+    -- the repaired code returns `Ok(None)` before any query
+    if logs.isEmpty then (s, if heightsEmptyPanics then .panic else .heights none)
     else onPool s (fun d => (d, .heights (heights o d.ops a logs)))
   | .size a l af un => onPool s (fun d => let (c, b) := logSize o d.ops a l af un; (d, .size c b))
   | .entries a l af un => onPool s (fun d =>
